@@ -8,7 +8,7 @@
 (* one for their object; per-column transforms carry the list of functions (DoFnApply).           *)
 EXTENDS DictableOps, Batch
 
-St0 == [heap |-> <<>>, reg |-> [r \in Regs |-> 0]]
+St0 == [heap |-> <<>>, reg |-> [r \in Regs |-> 0], av |-> NoArgs]
 TT(st, r) == st.heap[st.reg[r]]
 DoAlloc(st, rd, res) == IF res.ok THEN [heap |-> Append(st.heap, res.t), reg |-> [st.reg EXCEPT ![rd] = Len(st.heap) + 1], out |-> "ok"]
                         ELSE [heap |-> st.heap, reg |-> st.reg, out |-> res.err]
@@ -37,8 +37,44 @@ Apply(st, e) ==
       [] e.op = "IAdd"      -> DoAlloc(st, e.r, ConcatT(TT(st, e.r), TT(st, e.rb)))           \* e += table: the name e holds e + table, nothing else moves
       [] e.op = "ISub"      -> DoAlloc(st, e.r, MinusColsT(TT(st, e.r), e.cs))
       [] e.op = "IAddRecord" -> DoAlloc(st, e.r, ConcatT(TT(st, e.r), RecordT(e.rec)))
+      \* calls that are handed the caller's argument objects (st.av) - the event names the object, the value is the one it has NOW
+      [] e.op = "NewMap"    -> DoAlloc(st, e.rd, FromCols(MapCols(st.av.m), MapArgs(st.av.m)))
+      [] e.op = "NewMapKw"  -> DoAlloc(st, e.rd, FromMapKw(st.av.m, e.kw))
+      [] e.op = "NewTabKw"  -> DoAlloc(st, e.rd, FromTableKw(TT(st, e.r), e.kw))
+      [] e.op = "NewRecs"   -> DoAlloc(st, e.rd, FromRecords(st.av.recs))
+      [] e.op = "NewColsL"  -> DoAlloc(st, e.rd, FromCols(<<"a", "b">>, <<<<"l", st.av.L>>, IF e.b = "L" THEN <<"l", st.av.L>> ELSE <<"s", VX>>>>))
+      [] e.op = "NewRowsCs" -> DoAlloc(st, e.rd, FromRows(e.rows, st.av.cs))
+      [] e.op = "SetColL"   -> DoInPlace(st, e.r, SetColT(TT(st, e.r), e.c, <<"l", st.av.L>>))
+      [] e.op = "UpdateMap" -> LET res == UpdateT(TT(st, e.r), st.av.m, 1) IN
+                               [heap |-> [st.heap EXCEPT ![st.reg[e.r]] = res.t], reg |-> st.reg, out |-> res.err]
+      [] e.op = "DeriveConstL" -> DoAlloc(st, e.rd, SetColT(TT(st, e.r), e.c, <<"l", st.av.L>>))
+      [] e.op = "DeriveMap" -> DoAlloc(st, e.rd, AssignAllT(TT(st, e.r), st.av.m))
+      [] e.op = "RenameMap" -> DoAlloc(st, e.rd, RenameManyT(TT(st, e.r), st.av.rn))
+      [] e.op = "RenameMapKw" -> DoAlloc(st, e.rd, RenameManyT(TT(st, e.r), st.av.rn \o e.kw))
+      [] e.op = "ProjectCs" -> DoAlloc(st, e.rd, ProjectT(TT(st, e.r), st.av.cs))
+      [] e.op \in {"MinusCs", "ISubCs"} -> DoAlloc(st, e.rd, MinusColsT(TT(st, e.r), st.av.cs))
+      [] e.op = "DoCs"      -> DoAlloc(st, e.rd, DoT(TT(st, e.r), e.fs, st.av.cs))
+      [] e.op = "TakeIx"    -> DoAlloc(st, e.rd, TakeT(TT(st, e.r), st.av.ix))
+      [] e.op \in {"AddRecs", "IAddRecs"} -> DoAlloc(st, e.rd, ConcatT(TT(st, e.r), FromRecords(st.av.recs).t))
+      [] e.op \in {"AddRec1", "IAddRec1"} -> DoAlloc(st, e.rd, ConcatT(TT(st, e.r), RecordT(st.av.recs[1])))
       [] e.op \in {"Copy", "NoFilter"} -> DoAlloc(st, e.rd, Ok(TT(st, e.r)))
       [] e.op \in {"AddNone", "ConcatOne", "IAddNone"} -> [heap |-> st.heap, reg |-> [st.reg EXCEPT ![e.rd] = st.reg[e.r]], out |-> "ok"]
+
+\* the caller's own actions change the caller's objects and nothing else; a call changes none of them
+CallerApply(av, e) ==
+    CASE e.op = "Bind"       -> [k \in ArgNames \cup {"lg"} |-> IF k = "lg" THEN FALSE ELSE e.av[k]]
+      [] e.op = "MapSet"     -> [av EXCEPT !.m = MapPut(@, e.c, e.arg)]
+      [] e.op = "MapDel"     -> [av EXCEPT !.m = MapDrop(@, e.c)]
+      [] e.op = "RnSet"      -> [av EXCEPT !.rn = MapPut(@, e.c, e.c2)]
+      [] e.op = "RnDel"      -> [av EXCEPT !.rn = MapDrop(@, e.c)]
+      [] e.op = "RecsAppend" -> [av EXCEPT !.recs = Append(@, e.rec)]
+      [] e.op = "RecSet"     -> [av EXCEPT !.recs[1] = MapPut(@, e.c, e.v)]
+      [] e.op = "LAppend"    -> [av EXCEPT !.L = Append(@, e.v)]
+      [] e.op = "CsAppend"   -> [av EXCEPT !.cs = Append(@, e.c)]
+      [] e.op = "CsPop"      -> [av EXCEPT !.cs = Tail(@)]
+      [] e.op = "IxAppend"   -> [av EXCEPT !.ix = Append(@, e.i)]
+Step(st, e) == IF e.op \in CallerOps THEN [heap |-> st.heap, reg |-> st.reg, out |-> "ok", av |-> CallerApply(st.av, e)]
+               ELSE LET nx == Apply(st, e) IN [heap |-> nx.heap, reg |-> nx.reg, out |-> nx.out, av |-> IF e.op \in GivesL THEN [st.av EXCEPT !.lg = TRUE] ELSE st.av]
 
 \* the logged projection of one register against the abstract table
 RegVerdict(st, r, p) ==
@@ -58,10 +94,11 @@ FirstBad(st, p, rs) == IF rs = <<>> THEN "" ELSE LET v == RegVerdict(st, Head(rs
 RECURSIVE Run(_, _, _)
 Run(st, events, k) ==
     IF k > Len(events) THEN ""
-    ELSE LET e == events[k]  nx == Apply(st, e) IN
+    ELSE LET e == events[k]  nx == Step(st, e) IN
          IF e.out # nx.out THEN "step" \o ToString(k) \o ":outcome"
+         ELSE IF e.post.args # ObserveArgs(nx.av) THEN "step" \o ToString(k) \o ":argument_changed"     \* every object of the caller, after every call
          ELSE LET v == FirstBad(nx, e.post, <<"r1", "r2", "r3">>) IN
-              IF v # "" THEN "step" \o ToString(k) \o ":" \o v ELSE Run([heap |-> nx.heap, reg |-> nx.reg], events, k + 1)
+              IF v # "" THEN "step" \o ToString(k) \o ":" \o v ELSE Run([heap |-> nx.heap, reg |-> nx.reg, av |-> nx.av], events, k + 1)
 Verdict(o) == Run(St0, o.events, 1)
 
 Init == BatchInit
